@@ -1,5 +1,5 @@
 SPECIFICATION Spec
-CONSTANT Depth = 12
+CONSTANT Depth = 11
 CONSTANT MaxW = 6
 CONSTRAINT Bound
 INVARIANT PrefixInv
